@@ -108,39 +108,47 @@ def rule_F9c(ctx, qnames: List[str]):
     for q in qnames:
         f = ctx.prog.func(q, "F9c")
         ctx.touch(f)
-        seq = []  # ordered events
-        for s in own_statements(f.node.body):
-            if isinstance(s, ast.Assign) and len(s.targets) == 1 and isinstance(s.value, ast.Call) \
-                    and norm(s.value.func) in ("np.argsort", "numpy.argsort") and s.value.args:
-                key = s.value.args[0]
-                kind = next((k.value.value for k in s.value.keywords if k.arg == "kind" and isinstance(k.value, ast.Constant)), None)
-                col = None
+        # sort steps in source order: (array, column, kind, node); either `i = np.argsort(A[col]); A = A[i]` or, in canonical
+        # form (single-use temporaries are read in place, core/program.py), `A = A[np.argsort(A[col])]`
+        def argsort_of(c):
+            if isinstance(c, ast.Call) and norm(c.func) in ("np.argsort", "numpy.argsort") and c.args:
+                key = c.args[0]
+                kind = next((k.value.value for k in c.keywords if k.arg == "kind" and isinstance(k.value, ast.Constant)), None)
                 if isinstance(key, ast.Subscript):
-                    col = norm(key.slice)
-                seq.append(("argsort", norm(s.targets[0]), col, kind, s, norm(key.value) if isinstance(key, ast.Subscript) else None))
-            elif isinstance(s, ast.Assign) and len(s.targets) == 1 and isinstance(s.value, ast.Subscript) \
-                    and norm(s.targets[0]) == norm(s.value.value) and isinstance(s.value.slice, ast.Name):
-                seq.append(("reindex", norm(s.targets[0]), s.value.slice.id, None, s, None))
-        # expected pattern at the end of the function
+                    return norm(key.value), norm(key.slice), kind
+                return None, None, kind
+            return None
+        pending = {}
+        steps = []
+        for s in own_statements(f.node.body):
+            if not (isinstance(s, ast.Assign) and len(s.targets) == 1):
+                continue
+            a = argsort_of(s.value)
+            if a is not None and isinstance(s.targets[0], ast.Name):
+                pending[s.targets[0].id] = (a, s)
+                continue
+            if isinstance(s.value, ast.Subscript) and norm(s.targets[0]) == norm(s.value.value):
+                arr = norm(s.targets[0])
+                if isinstance(s.value.slice, ast.Name) and s.value.slice.id in pending:
+                    (src, col, kind), n0 = pending[s.value.slice.id]
+                    steps.append((arr, src, col, kind, s))
+                else:
+                    a = argsort_of(s.value.slice)
+                    if a is not None:
+                        steps.append((arr, a[0], a[1], a[2], s))
         ok = False
         why = "sort idiom not found"
-        args = [e for e in seq if e[0] == "argsort"]
-        if len(args) >= 2:
-            a1, a2 = args[-2], args[-1]
-            arr = a1[5]
-            r1 = [e for e in seq if e[0] == "reindex" and e[2] == a1[1] and e[1] == arr]
-            r2 = [e for e in seq if e[0] == "reindex" and e[2] == a2[1] and e[1] == arr]
-            order_ok = r1 and r2 and a1[4].lineno < r1[0][4].lineno < a2[4].lineno < r2[0][4].lineno
-            if a1[2] != "'pitch'":
-                why = f"first sort key is {a1[2]}, expected the pitch column"
-            elif a2[2] in ("'pitch'",) or a2[2] is None:
-                why = f"second sort key is {a2[2]}, expected the onset column"
-            elif a2[3] not in ("mergesort", "stable"):
-                why = f"the onset argsort is not stable (kind={a2[3]!r}): equal onsets lose their pitch order"
-            elif a2[5] != arr:
+        args = steps
+        if len(steps) >= 2:
+            s1, s2 = steps[-2], steps[-1]
+            if s1[2] != "'pitch'":
+                why = f"first sort key is {s1[2]}, expected the pitch column"
+            elif s2[2] in ("'pitch'",) or s2[2] is None:
+                why = f"second sort key is {s2[2]}, expected the onset column"
+            elif s2[3] not in ("mergesort", "stable"):
+                why = f"the onset argsort is not stable (kind={s2[3]!r}): equal onsets lose their pitch order"
+            elif not (s1[0] == s1[1] == s2[0] == s2[1]):
                 why = "the two sorts index different arrays"
-            elif not order_ok:
-                why = "the array is not re-indexed by each permutation in order"
             else:
                 ok = True
         ctx.check(ok, "F9c", f"{q}:onset-then-pitch", func=f, node=args[-1][4] if args else None,
